@@ -3,6 +3,7 @@
 from __future__ import annotations
 
 import json
+import re
 
 PROP = "C11"
 PROP_FILE = "PwVerif/Props/C11.lean"
@@ -20,6 +21,10 @@ THEOREMS = [
     "C11_failed_signal_witness",
     "C11_parent_emits_witness",
     "C11_restored",
+    "C11_restored_ordered",
+    "C11_restored_ordered_repaired",
+    "C11_order_witness",
+    "C11_running_target_refused",
     "C11_refused_unchanged",
     "C11_automate_restored",
     "C11_automate_witness",
@@ -108,7 +113,10 @@ def build(case):
     sc.composites = [g for g in sorted(sc.node) if isinstance(sc.node[g], Composite)]
     sc.wfs = [g for g in sc.composites if isinstance(sc.node[g], Workflow)]
     for n in sc.node.values():
-        n.use_cache = False
+        # caching is C05's subject; switched on only in the cache stream, and there only on the leaves: a
+        # composite whose own cache answers skips the upstream run it was asked to drive wholesale (sound, since
+        # nothing has changed, but not modelled)
+        n.use_cache = bool(case.get("cache")) and not isinstance(n, Composite)
     post = case.get("post", {})
     for g in post.get("dagwire", []):
         sc.node[g].set_run_signals_to_dag_execution()
@@ -180,6 +188,7 @@ class Instr:
     def __init__(self, sc):
         self.sc = sc
         self.exec_log = []
+        self.hits = []  # nodes whose cache answered
         self.obs = {}  # target gid -> [order, chain]
         self.cur = None
 
@@ -189,7 +198,14 @@ class Instr:
 
         self.nd, self.tp = nd, tp
         self.o_on_run, self.o_tree, self.o_flat = nd.Node.on_run, nd.get_nodes_in_data_tree, tp.toposort_flatten
+        self.o_hit = nd.Node._on_cache_hit
         me = self
+
+        def on_hit(self_):
+            me.hits.append(me.sc.gid.get(id(self_), -1))
+            return me.o_hit(self_)
+
+        nd.Node._on_cache_hit = on_hit
 
         def on_run(self_, *a, **k):
             me.exec_log.append(me.sc.gid.get(id(self_), -1))
@@ -217,6 +233,7 @@ class Instr:
 
     def __exit__(self, *exc):
         self.nd.Node.on_run = self.o_on_run
+        self.nd.Node._on_cache_hit = self.o_hit
         self.nd.get_nodes_in_data_tree = self.o_tree
         self.tp.toposort_flatten = self.o_flat
         return False
@@ -236,6 +253,10 @@ def _outcome(e):
     name = type(e).__name__
     if name in ("Boom", "FailedChildError", "ReadinessError"):
         return "failed"
+    if name == "RuntimeError" and "data input locked" in str(e):
+        return "failed"  # a `running` node refuses new input even before it refuses to run
+    if name == "KeyError" and re.fullmatch(r"'n\d+\d{9,}'", str(e)):
+        return "failed"  # a parent with a `running` child resumes "a broken process" by (temporary) label
     return f"exc:{name}"
 
 
@@ -296,6 +317,8 @@ def run_impl(case):
         fid = case["fid"].get(str(g))
         if fid is not None:
             nodes.FAIL[fid] = {0}
+    for g in case.get("running", []):
+        sc.node[g].running = True  # a stale flag / a run in flight elsewhere
     pool = None
     if case.get("exec"):
         pool = concurrent.futures.ThreadPoolExecutor(max_workers=1)
@@ -321,7 +344,10 @@ def run_impl(case):
             err, ret = None, None
             with Instr(sc) as ins:
                 try:
-                    ret = sc.node[t].pull(run_parent_trees_too=bool(parents))
+                    if parents and case.get("call"):
+                        ret = sc.node[t]()  # `__call__` = pull with the parent scopes
+                    else:
+                        ret = sc.node[t].pull(run_parent_trees_too=bool(parents))
                 except (Exception, Runaway) as e:  # noqa: BLE001
                     err = e
             rec = {
@@ -330,6 +356,7 @@ def run_impl(case):
                 "outcome": _outcome(err),
                 "err": None if err is None else f"{type(err).__name__}: {str(err)[:200]}",
                 "exec": list(ins.exec_log),
+                "hits": list(ins.hits),
                 "calls": [c[0] for c in nodes.CALL_LOG],
                 "obs": {str(k): v for k, v in ins.obs.items()},
                 "before": before,
@@ -355,6 +382,11 @@ def run_impl(case):
     stats["pulls_with_parents"] = sum(1 for r in recs if r["parents"])
     stats["max_closure"] = max([len(o[0]) for r in recs for o in r["obs"].values()] or [0])
     stats["leaf_executions"] = sum(len(r["exec"]) for r in recs)
+    stats["cache_hits"] = sum(len(r["hits"]) for r in recs)
+    stats["pulls_with_cache_hits"] = sum(1 for r in recs if r["hits"])
+    stats["macro_targets"] = sum(1 for r in recs if r["t"] in sc.composites)
+    stats["via_call"] = sum(1 for r in recs if r["parents"] and case.get("call"))
+    stats["running_flags"] = len(case.get("running", []))
     stats["conn_list_order_changed_sets_equal"] = sum(
         1 for r in recs if r["before"]["conns"] != r["after"]["conns"]
         and all(set(r["before"]["conns"].get(c, [])) == set(r["after"]["conns"].get(c, []))
@@ -413,7 +445,7 @@ def _value_links(sc):
 
 def model_input(case, impl):
     w = impl["world"]
-    lines = [f"n {w['n']}"]
+    lines = ["variants " + " ".join(TAGS), f"n {w['n']}"]
     init = w["init"]
     for g in sorted(int(k) for k in w["parent"]):
         par = w["parent"][g] if g in w["parent"] else w["parent"][str(g)]
@@ -430,12 +462,14 @@ def model_input(case, impl):
         lines.append(f"automate {p} {int(_get(init['automate'], p))}")
     if case.get("exec"):
         lines.append("exec " + " ".join(map(str, case["exec"])))
+    if case.get("running"):
+        lines.append("running " + " ".join(map(str, case["running"])))
     # a macro that is pulled over as a sibling runs as one unit; whether its inside raises (that depends on its
     # own wiring and starting nodes, C09's subject) is observed: it is marked failed afterwards
     fl = set(case.get("fails", []))
     if impl["recs"]:
         last = impl["recs"][-1]
-        anc = set(_levels(last["t"], True, _ik(w["parent"])))
+        anc = set(_levels(last["t"], True, _ik(w["parent"]))) - {last["t"]}
         fl |= {g for g in last["after"]["failed"] if g in w["composites"] and g not in anc
                and g not in last["before"]["failed"]}
     if fl:
@@ -449,6 +483,8 @@ def model_input(case, impl):
             v = _get(r["vals_after"]["out"], g)
             if v in ("True", "False"):
                 lines.append(f"truth {g} {int(v == 'True')}")
+        # whose cache answers is C05's subject: observed (a driving parent never hits: its wiring differs)
+        lines.append(("hit " + " ".join(map(str, sorted(set(r["hits"]))))).rstrip())
         for t, (order, chain) in sorted((int(t), oc) for t, oc in r["obs"].items()):
             lines.append(f"obs {t} " + " ".join(map(str, order)) + " / " + " ".join(map(str, chain)))
         lines.append(f"pull {r['t']} {int(r['parents'])}")
@@ -459,7 +495,9 @@ def _get(d, k):
     return d[k] if k in d else d[str(k)]
 
 
-TAGS = ["V000", "V001", "V010", "V011", "V100", "V101", "V110", "V111"]
+# the variants the driver evaluates: all repairs, each single repair missing, nothing repaired (a tree further
+# away than one missing repair diverges, which is red as well)
+TAGS = ["V0000", "V0111", "V1011", "V1101", "V1110", "V1111"]
 ALIVE = set(TAGS)  # variants that explained every case so far (the tree is ONE of them)
 VARIANT_HITS: dict = {}
 
@@ -619,13 +657,14 @@ def gen_scene(rng, max_leaf=4, clean=None, fault=None):
     if top == "wf" and rng.random() < 0.15:
         post["automate"][str(case["wfgid"])] = False
     # faults
-    fault = fault or rng.choice(["none"] * 9 + ["fails"] * 5 + ["cyclic"] * 2 + ["exec"] * 2 + ["mixed"] * 2)
+    fault = fault or rng.choice(["none"] * 9 + ["fails"] * 5 + ["cyclic"] * 2 + ["exec"] * 2 + ["mixed"] * 2
+                                + ["running"] * 2)
     all_leaves = [g for m in metas for g in m["leaves"]]
     case["fails"], case["exec"], case["foreign"] = [], [], []
     if fault == "fails":
         cand = [g for g in all_leaves if str(g) in ids.fid]
         case["fails"] = rng.sample(cand, min(len(cand), rng.choice([1, 1, 2])))
-    elif fault == "exec":
+    elif fault in ("exec", "running"):
         pass  # placed by `gen_cases` inside a closure that the chosen pull inspects
     elif fault == "cyclic":
         m = rng.choice(metas)
@@ -653,6 +692,9 @@ def gen_scene(rng, max_leaf=4, clean=None, fault=None):
         for meta in metas:
             srcs = [(g, "true" if tr else "false") for g, tr in meta["ifs"].items()]
             srcs += [(g, "failed") for g in case["fails"] if g in meta["leaves"]]
+            if meta["macro"] is not None:
+                # whatever a driving macro could emit: its `ran`, its `failed`
+                srcs += [(meta["macro"], rng.choice(["failed", "failed", "ran"]))]
             for a, chn in srcs:
                 others = meta["hidden"][meta["hidden"].index(a) + 1:]  # forward only: no signal cycles
                 if others and rng.random() < 0.6:
@@ -660,7 +702,8 @@ def gen_scene(rng, max_leaf=4, clean=None, fault=None):
                                             rng.choice(["run", "run", "accumulate_and_run"])])
     case["post"] = post
     case["ngid"] = ids.g
-    case["_meta"] = {"clean": clean, "fault": fault, "leaves": all_leaves, "levels": [m["leaves"] for m in metas]}
+    case["_meta"] = {"clean": clean, "fault": fault, "leaves": all_leaves, "levels": [m["leaves"] for m in metas],
+                     "macros": [m["macro"] for m in metas if m["macro"] is not None]}
     return case
 
 
@@ -694,12 +737,16 @@ def spec_closure(case, t):
     return {t}, None
 
 
-def place_executor(rng, case, t, par):
+def place_executor(rng, case, t, par, with_parent=False):
     cands, owner = spec_closure(case, t)
     cands = sorted(cands)
+    if with_parent and owner is not None and not par:
+        # (running flag) also the composite that would have to drive the upstream run; not with the parent
+        # scopes: whether the `fetch` of a running ancestor raises depends on its data, which is not modelled
+        cands.append(owner)
     while par and owner is not None and owner != case.get("wfgid"):
         cl, up = spec_closure(case, owner)
-        cands += sorted(cl)
+        cands += sorted(cl - {owner}) if with_parent else sorted(cl)
         owner = up
     return [rng.choice(cands)]
 
@@ -710,22 +757,35 @@ def gen_cases(rng, tier):
         sc = gen_scene(rng, max_leaf=4 if tier == "quick" else 5, clean=(k % 2 == 0))
         leaves = sc["_meta"]["leaves"]
         deep = sc["_meta"]["levels"][-1]
+        macros = sc["_meta"]["macros"]
         if tier == "quick":
-            targets = [rng.choice(deep), rng.choice(leaves)]
+            targets = [rng.choice(deep), rng.choice(leaves + macros)]
         else:
-            targets = list(leaves)
+            targets = list(leaves) + macros
+        fault = sc["_meta"]["fault"]
         for t in targets:
             par = rng.random() < 0.5
             pulls = [[t, int(par)]]
-            if sc["_meta"]["fault"] == "exec":
+            sc["call"] = rng.random() < 0.5  # `node()` instead of `node.pull(run_parent_trees_too=True)`
+            sc["cache"] = fault in ("none", "fails") and rng.random() < 0.25
+            if fault == "exec":
                 sc["exec"] = place_executor(rng, sc, t, par)
+            elif fault == "running":
+                sc["running"] = place_executor(rng, sc, t, par, with_parent=True)
+            elif sc["cache"]:
+                # the second pull meets the caches the first one filled
+                pulls.append([t, int(par)])
+                if rng.random() < 0.5:
+                    pulls.append([rng.choice(leaves), int(rng.random() < 0.5)])
             elif rng.random() < 0.2:
                 pulls.append([rng.choice(leaves), int(rng.random() < 0.5)])
             yield with_pulls(sc, pulls)
             if tier == "thorough":
-                if sc["_meta"]["fault"] == "exec":
+                if fault == "exec":
                     sc["exec"] = place_executor(rng, sc, t, not par)
-                yield with_pulls(sc, [[t, int(not par)]])
+                elif fault == "running":
+                    sc["running"] = place_executor(rng, sc, t, not par, with_parent=True)
+                yield with_pulls(sc, [[t, int(not par)]] * (2 if sc["cache"] else 1))
     if tier == "thorough":
         yield from small_scope()
 
@@ -828,6 +888,7 @@ def _ref_value(w, rec, levels, allowed, fids, closures):
     # does so only if it runs at all, i.e. if the level target is not alone in its closure
     par = _ik(w["parent"])
     drivers = (set(levels[:-1]) | {par.get(a) for a in levels if len(closures[a]) > 1}) - {None}
+    hits = set(rec.get("hits", []))
     memo = {}
 
     def slotval(g, lab):
@@ -844,8 +905,8 @@ def _ref_value(w, rec, levels, allowed, fids, closures):
         if g in memo:
             return memo[g]
         memo[g] = "?"
-        if g in comps or g not in allowed:
-            v = vout_after.get(g, "?")
+        if g in comps or g not in allowed or g in hits:
+            v = vout_after.get(g, "?")  # black box / not run / answered from the cache: what it holds
         elif g in ifs:
             c = slotval(g, "condition")
             v = "False" if c in ("False", "0", "None", "''", "()", "[]", "{}") else "True"
@@ -858,7 +919,7 @@ def _ref_value(w, rec, levels, allowed, fids, closures):
         return v
 
     t = levels[-1]
-    if t in comps:
+    if t in comps or t in hits:
         return None
     return T(t)
 
@@ -925,7 +986,8 @@ def _oracle_rec(case, w, rec, fids):
     bad_order = None
     for g in inside:
         for d in deps.get(g, []):
-            if d in allowed and level_of.get(d) == level_of.get(g) and (d not in pos or pos[d] > pos[g]):
+            if d in allowed and level_of.get(d) == level_of.get(g) and d not in rec.get("hits", []) and (
+                    d not in pos or pos[d] > pos[g]):
                 bad_order = bad_order or (g, d)
     lv_seq = [level_of[g] for g in inside]
     if bad_order:
@@ -933,8 +995,9 @@ def _oracle_rec(case, w, rec, fids):
     elif lv_seq != sorted(lv_seq) or (t in inside and inside[-1] != t):
         fail("dependency-order", f"levels / target out of order: {log}")
     # 4. complete on success; a cyclic pull cannot succeed
+    hits = set(rec.get("hits", []))
     if outcome == "ok":
-        missing = sorted(allowed - set(inside))
+        missing = sorted(allowed - set(inside) - hits)  # a node whose cache answers need not execute (C05)
         if refusing is not None and refusing[1] == "cyclic":
             fail("cyclic-not-refused", f"the data of level target {levels[refusing[0]]} is cyclic but the pull returned")
         elif missing:
@@ -944,7 +1007,7 @@ def _oracle_rec(case, w, rec, fids):
         # (macros run as one unit are left out: what happens inside them is not this property's subject)
         inner_fail = set(case.get("fails", []))
         if (refusing is None and not out and not (allowed & comps) and not (allowed & inner_fail)
-                and not (set(rec["before"]["failed"]) & (allowed | drivers))):
+                and not ((set(rec["before"]["failed"]) | set(case.get("running", []))) & (allowed | drivers))):
             fail("unexpected-failure", f"nothing upstream is cyclic, on an executor, foreign or failing, yet: {rec['err']}")
     # 5. the graph is as before, whatever the outcome
     b, a = rec["before"], rec["after"]
@@ -954,6 +1017,10 @@ def _oracle_rec(case, w, rec, fids):
         c = diffc[0]
         fail("signals-restored", f"channel {c} (node {c // 6}, {list(CH)[c % 6]}) had {bc.get(c, [])}, now {ac.get(c, [])}",
              outcome=outcome, channel=list(CH)[c % 6])
+    elif bc != ac:
+        c = sorted(c for c in set(bc) | set(ac) if bc.get(c, []) != ac.get(c, []))[0]
+        fail("signal-order-restored", f"channel {c} (node {c // 6}, {list(CH)[c % 6]}) listed {bc.get(c, [])}, now "
+             f"{ac.get(c, [])}: same connections, another firing order", channel=list(CH)[c % 6])
     if _ik(b["labels"]) != _ik(a["labels"]) or b["keys"] != a["keys"]:
         fail("labels-restored", f"labels {b['labels']} -> {a['labels']}", outcome=outcome)
     sb, sa = _ik(b["starting"]), _ik(a["starting"])
@@ -964,7 +1031,7 @@ def _oracle_rec(case, w, rec, fids):
     if _ik(b["automate"]) != _ik(a["automate"]):
         fail("automate-restored", f"automate_execution {b['automate']} -> {a['automate']}", outcome=outcome)
     # 6. returned value
-    if outcome == "ok" and refusing is None and not out:
+    if outcome == "ok" and refusing is None and not [f for f in out if f["clause"] != "signal-order-restored"]:
         ref = _ref_value(w, rec, levels, allowed, fids, closures)
         if ref is not None and (rec["ret"] != ref or rec["out"] != ref):
             fail("value", f"returned {rec['ret']} (output channel {rec['out']}), reference {ref}")
